@@ -10,7 +10,7 @@ PROP = "C17"
 RULE = ("SMB1/SMB2 Negotiate and Session-Setup requests inside a NetBIOS session message with random and boundary "
         "correlation ids (PID high/low, TID, UID, MID; MessageId, AsyncId, SessionId), arbitrary request flags without the reply "
         "bit, dialect lists of 1..12 entries with permutations, duplicates and unknown dialects, security blobs of 1..512 bytes, "
-        "over UDP and validated TCP flows (one segment); every response is decoded by independent NBSS/SMB1/SMB2 codecs (NBSS "
+        "over UDP and validated TCP flows (one segment, and Negotiate / Session-Setup dialogues of 2-5 requests on one connection); every response is decoded by independent NBSS/SMB1/SMB2 codecs (NBSS "
         "length, reply flag, command and ids echoed, WordCount/ByteCount, DialectIndex < offered, DialectRevision offered, "
         "security buffer offset+length == end of message); SMB1 lists with repeated dialects must select the same dialect (by name) as "
         "without the repetitions. Negative: reply flag set, every other command value 0..255 (SMB1) "
@@ -59,6 +59,24 @@ def shard(ctx, budget_s):
                     observed=(a.rep or b"").hex()[:300], expected="matching response")
             if ctx.shard == 0 and len(ctx.samples) < 3:
                 ctx.sample({"kind": req["kind"], "request": req["payload"].hex()[:200]})
+        # ---- a dialogue on one connection: Negotiate, then Session-Setup(s), each acknowledging the previous response
+        for _ in range(4):
+            fam = rng.choice(["smb1", "smb2"])
+            reqs = [smb.gen_request(rng, fam + "_neg")] + [smb.gen_request(rng, fam + "_sess") for _x in range(rng.randrange(1, 4))]
+            if rng.random() < 0.2:
+                reqs.insert(1, smb.gen_request(rng, fam + "_neg"))       # a client that negotiates twice
+            want = sigref.SMB1 if fam == "smb1" else sigref.SMB2
+            if any(sigref.identify(q["payload"], False) != want for q in reqs):
+                continue
+            reps = lab.dialogue([q["payload"] for q in reqs])
+            if reps is None:
+                continue
+            ctx.stats["dialogues"] += 1
+            for i, (q, rep) in enumerate(zip(reqs, reps)):
+                ctx.nontrivial("dialogue", fam, i, q["kind"], len(q["payload"]))
+                for e in smb.check_response(rep, q):
+                    ctx.violation("dialogue:%s:%s" % (q["kind"], e.split(" ")[0]), "%s; request #%d (%s) of a %d-request dialogue on one connection" % (e, i, q["kind"], len(reqs)),
+                                  observed=(rep or b"").hex()[:300], expected="matching response")
         # ---- SMB1: offering a dialect twice adds no option - the dialect selected (by name) must not change
         for _ in range(6):
             base = [rng.choice(smb.SMB1_DIALECTS) for _x in range(rng.randrange(1, 6))]
